@@ -1,12 +1,222 @@
-import Tickit.Model.Bindings
+import Tickit.Proof.Bindings
 import Tickit.Gen.Bindings
+/-
+  C16 — Handlers fire once per event, in order, never after unbind, even re-entrantly.
+
+  The model (`Tickit/Model/Bindings.lean`) transcribes `src/bindings.c`; `Cfg.original` is the code of
+  the unchanged tree, `Cfg.repaired` the code with `fixes/C16_oneshot.patch` and
+  `fixes/C16_unbind_reentrant.patch` applied.  Handlers are arbitrary behaviour tables
+  (`Behaviour`: handler → invocation number → actions to perform and value to return), interpreted
+  at any nesting depth; `fuel` bounds the recursion and every theorem holds for every fuel.
+
+  A *history* is a list of top-level operations run from the empty binding list (`Runs`).  The
+  property's clauses are statements about the trace `st.log` of a history (newest event first):
+    `Ev.bound k id ev first flags`   a bind created binding `k` (k = its slot) with identifier `id`
+    `Ev.enter k h n flags occ`       handler `h` entered for binding `k` with `TickitEventFlags` `flags`
+    `Ev.unbindReq k`                 `unbind_event_id` found binding `k`                     (ghost)
+    `Ev.fire k occ`                  the walker of occurrence `occ` decided to deliver to `k` (ghost)
+
+  Each clause is a `def …Stmt (cfg : Cfg) : Prop`, proved for `Cfg.repaired` and — where the unchanged
+  code violates it — refuted for `Cfg.original` by a concrete history (`…_counterexample`).
+
+  Hypotheses common to the theorems:
+    `NoDestroy beh`  no behaviour drops the last reference to the owner from inside a handler
+                     (pen and terminal hold no reference during emission: known finding `destroy_in_handler`);
+    `ValidOps ops`   `unbind` is never handed `BINDING_ID_TOMBSTONE` (-1), which is not an identifier;
+    handlers take no action when called with `TICKIT_EV_DESTROY` (built into the model's `call`).
+-/
 namespace Tickit.Props.C16
 open Tickit.Bindings
 
-/-- The model's constants are the source's. -/
+/-! ### constants read from the source agree with the model -/
+
+/-- `BINDING_ID_TOMBSTONE` and the event-flag bits the model uses are the source's. -/
 theorem gen_constants :
     Tickit.Gen.Bindings.BINDING_ID_TOMBSTONE = TOMBSTONE ∧
     Tickit.Gen.Bindings.TICKIT_EV_FIRE = EV_FIRE ∧ Tickit.Gen.Bindings.TICKIT_EV_UNBIND = EV_UNBIND ∧
     Tickit.Gen.Bindings.TICKIT_EV_DESTROY = EV_DESTROY := by decide
+
+/-- `bind_event` keeps exactly the three flags of `BFlags`; `unbind_event_id` tests `bind->flags` against
+    `TICKIT_EV_UNBIND`, which has the value of `TICKIT_BIND_UNBIND`; the destroy loop tests
+    `TICKIT_EV_UNBIND|TICKIT_EV_DESTROY` = `TICKIT_BIND_UNBIND|TICKIT_BIND_DESTROY` and event index 0; a one-shot
+    delivery adds `TICKIT_EV_UNBIND`; the bits are distinct powers of two (so `Driver.flagsOf` decodes them). -/
+theorem gen_flag_layout :
+    Tickit.Gen.Bindings.keptMask =
+      Tickit.Gen.Bindings.TICKIT_BIND_UNBIND + Tickit.Gen.Bindings.TICKIT_BIND_DESTROY + Tickit.Gen.Bindings.TICKIT_BIND_ONESHOT ∧
+    Tickit.Gen.Bindings.unbindTest = Tickit.Gen.Bindings.TICKIT_BIND_UNBIND ∧
+    Tickit.Gen.Bindings.unbindCallFlags = EV_UNBIND ∧
+    Tickit.Gen.Bindings.destroyTest = Tickit.Gen.Bindings.TICKIT_BIND_UNBIND + Tickit.Gen.Bindings.TICKIT_BIND_DESTROY ∧
+    Tickit.Gen.Bindings.destroyCallFlags = EV_UNBIND + EV_DESTROY ∧
+    Tickit.Gen.Bindings.destroyEvindex = 0 ∧
+    Tickit.Gen.Bindings.oneshotAdds = EV_UNBIND ∧
+    (Tickit.Gen.Bindings.TICKIT_BIND_FIRST, Tickit.Gen.Bindings.TICKIT_BIND_UNBIND,
+     Tickit.Gen.Bindings.TICKIT_BIND_DESTROY, Tickit.Gen.Bindings.TICKIT_BIND_ONESHOT) = (1, 2, 4, 8) ∧
+    Tickit.Gen.Bindings.TICKIT_PEN_ON_DESTROY = 0 ∧ Tickit.Gen.Bindings.TICKIT_TERM_ON_DESTROY = 0 ∧
+    Tickit.Gen.Bindings.TICKIT_WINDOW_ON_DESTROY = 0 ∧
+    Tickit.Gen.Bindings.TICKIT_PEN_ON_CHANGE = 1 ∧ Tickit.Gen.Bindings.TICKIT_TERM_ON_RESIZE = 1 ∧
+    Tickit.Gen.Bindings.TICKIT_TERM_ON_KEY = 2 ∧ Tickit.Gen.Bindings.TICKIT_TERM_ON_MOUSE = 3 := by decide
+
+/-! ### vocabulary -/
+
+/-- a complete history from the empty binding list -/
+def Runs (cfg : Cfg) (own : Owner) (beh : Behaviour) (fuel : Nat) (ops : List Op) (st : St) : Prop :=
+  execOps cfg own beh fuel ops St.init = .ok st
+
+def ValidOps (ops : List Op) : Prop := ∀ op ∈ ops, OpOk op
+
+/-! ### no_ub -/
+
+/-- No history dereferences a freed binding, writes through a stale `bindp` or calls a NULL handler. -/
+def NoUbStmt (cfg : Cfg) : Prop :=
+  ∀ own beh, NoDestroy beh → ∀ fuel ops, ValidOps ops → ∀ w, execOps cfg own beh fuel ops St.init ≠ .ub w
+
+theorem no_ub : NoUbStmt Cfg.repaired := by
+  intro own beh hb fuel ops hops w hc
+  have := execOps_good own beh hb fuel ops St.init hops Top.init
+  rw [hc] at this
+  exact this
+
+/-- The same for every single task started in a state satisfying the invariant (any nesting depth). -/
+theorem no_ub_task (own : Owner) (beh : Behaviour) (hb : NoDestroy beh) (fuel : Nat) (task : Task) (st : St)
+    (h : Tickit.Bindings.Inv st) (hok : TaskOk task st) (w : String) : exec Cfg.repaired own beh fuel task st ≠ .ub w := by
+  intro hc
+  have := exec_good own beh hb fuel task st h hok
+  rw [hc] at this
+  exact this
+
+/-! ### live_ids_unique -/
+
+/-- After any history the live bindings have pairwise different identifiers, all positive. -/
+def LiveIdsUniqueStmt (cfg : Cfg) : Prop :=
+  ∀ own beh, NoDestroy beh → ∀ fuel ops st, ValidOps ops → Runs cfg own beh fuel ops st → Op.destroy ∉ ops →
+    ∀ b1 ∈ st.list, ∀ b2 ∈ st.list, b1.id ≠ TOMBSTONE → b1.id = b2.id → b1 = b2
+
+theorem live_ids_unique : LiveIdsUniqueStmt Cfg.repaired := by
+  intro own beh hb fuel ops st hops hr hnd b1 h1 b2 h2 hl heq
+  have := execOps_good own beh hb fuel ops St.init hops Top.init
+  rw [hr] at this
+  have hinv := (this.2 hnd).1
+  have hk := hinv.idsUnique b1 h1 b2 h2 hl heq
+  have f1 := findKey_eq_of_mem hinv.keysNodup h1
+  have f2 := findKey_eq_of_mem hinv.keysNodup h2
+  rw [hk] at f1
+  rw [f1] at f2
+  injection f2
+
+/-- …and at every bind, top-level or inside a handler at any depth: the identifier returned is positive and
+    differs from the identifier of every binding live at that moment. -/
+def BindFreshStmt (cfg : Cfg) : Prop :=
+  ∀ own beh, NoDestroy beh → ∀ fuel ops st, ValidOps ops → Runs cfg own beh fuel ops st →
+    ∀ post pre k id ev first fl, st.log = post ++ Ev.bound k id ev first fl :: pre →
+      1 ≤ id ∧ ∀ k' id' ev' first' fl', Ev.bound k' id' ev' first' fl' ∈ pre → liveAt pre k' → id' ≠ id
+
+theorem bind_returns_fresh_id : BindFreshStmt Cfg.repaired := by
+  intro own beh hb fuel ops st hops hr post pre k id ev first fl hsplit
+  have := execOps_good own beh hb fuel ops St.init hops Top.init
+  rw [hr] at this
+  have ht := this.1
+  rw [hsplit] at ht
+  have := TraceOk.at ht
+  exact ⟨this.2.1, this.2.2⟩
+
+/-! ### oneshot_at_most_once -/
+
+/-- Over a whole history the handler of a `TICKIT_BIND_ONESHOT` binding is entered with `TICKIT_EV_FIRE`
+    at most once, whichever walker delivers. -/
+def OneshotStmt (cfg : Cfg) : Prop :=
+  ∀ own beh, NoDestroy beh → ∀ fuel ops st, ValidOps ops → Runs cfg own beh fuel ops st →
+    ∀ k fl, boundIn st.log k fl → fl.oneshot = true → st.log.countP (isEnterFire k) ≤ 1
+
+theorem oneshot_at_most_once : OneshotStmt Cfg.repaired := by
+  intro own beh hb fuel ops st hops hr k fl hbound ho
+  have := execOps_good own beh hb fuel ops St.init hops Top.init
+  rw [hr] at this
+  exact Nat.le_trans (enterFire_le_fire this.1 k) (fire_le_one this.1 hbound ho)
+
+/-! ### no_fire_after_unbind -/
+
+/-- Once `unbind_event_id` has found a binding, its handler is never entered with `TICKIT_EV_FIRE` again —
+    not even from inside its own unbind notification. -/
+def NoFireAfterUnbindStmt (cfg : Cfg) : Prop :=
+  ∀ own beh, NoDestroy beh → ∀ fuel ops st, ValidOps ops → Runs cfg own beh fuel ops st →
+    ∀ post pre k, st.log = post ++ Ev.unbindReq k :: pre → post.countP (isEnterFire k) = 0
+
+theorem no_fire_after_unbind : NoFireAfterUnbindStmt Cfg.repaired := by
+  intro own beh hb fuel ops st hops hr post pre k hsplit
+  have := execOps_good own beh hb fuel ops St.init hops Top.init
+  rw [hr] at this
+  have ht := this.1
+  rw [hsplit] at ht
+  exact (no_fire_after_req ht).2
+
+/-! ### unbind_notify_once -/
+
+/-- A binding receives the pure unbind notification (`TICKIT_EV_UNBIND` alone) at most once, never more often
+    than it was unbound (which is at most once), and only if it was bound with `TICKIT_BIND_UNBIND`. -/
+def UnbindNotifyAtMostStmt (cfg : Cfg) : Prop :=
+  ∀ own beh, NoDestroy beh → ∀ fuel ops st, ValidOps ops → Runs cfg own beh fuel ops st → ∀ k,
+    st.log.countP (isNotif k) ≤ st.log.countP (isReq k) ∧ st.log.countP (isReq k) ≤ 1 ∧
+    (∀ h n occ, Ev.enter k h n EV_UNBIND occ ∈ st.log → ∃ fl, boundIn st.log k fl ∧ fl.unbind = true)
+
+theorem unbind_notify_at_most_once : UnbindNotifyAtMostStmt Cfg.repaired := by
+  intro own beh hb fuel ops st hops hr k
+  have := execOps_good own beh hb fuel ops St.init hops Top.init
+  rw [hr] at this
+  exact ⟨notif_le_req this.1 k, req_le_one this.1 k, fun h n occ hm => notif_asked this.1 hm⟩
+
+/-- …and exactly once when it asked: every completed call of `unbind_event_id` (top-level or nested, from any
+    state satisfying the invariant) that finds a live binding bound with `TICKIT_BIND_UNBIND` has entered its
+    handler with `TICKIT_EV_UNBIND` right after the request; if the binding did not ask, nothing is called. -/
+def UnbindNotifiesStmt (cfg : Cfg) : Prop :=
+  ∀ own beh, NoDestroy beh → ∀ fuel id st st' r b, Tickit.Bindings.Inv st → id ≠ TOMBSTONE → findId st.list id = some b →
+    exec cfg own beh fuel (.unbindId id) st = .ok (st', r) →
+    (b.flags.unbind = true → ∃ h n seg, st'.log = seg ++ Ev.enter b.key h n EV_UNBIND 0 :: Ev.unbindReq b.key :: st.log) ∧
+    (b.flags.unbind = false → st'.log = Ev.unbindReq b.key :: st.log)
+
+theorem unbind_notifies : UnbindNotifiesStmt Cfg.repaired := by
+  intro own beh hb fuel id st st' r b hinv hid hf hex
+  exact exec_unbindId_log own beh hb hinv hid hf hex
+
+/-! ### destroy_notifies -/
+
+/-- Destroying the object (from outside its handlers) calls, with `TICKIT_EV_UNBIND|TICKIT_EV_DESTROY`, exactly the
+    remaining bindings that asked — bound to the destroy event (index 0) or with `TICKIT_BIND_UNBIND` or
+    `TICKIT_BIND_DESTROY` — each exactly once, in reverse list order (newest first; bindings bound `FIRST`
+    last), and calls nothing else.  Every remaining binding is live: there is no tombstone between operations. -/
+def DestroyNotifiesStmt (cfg : Cfg) : Prop :=
+  ∀ own beh, NoDestroy beh → ∀ fuel ops st st', ValidOps ops → Op.destroy ∉ ops → Runs cfg own beh fuel ops st →
+    execOp cfg own beh fuel .destroy st = .ok st' →
+    (∀ b ∈ st.list, b.id ≠ TOMBSTONE) ∧ st'.list = [] ∧
+    ∃ seg, st'.log = seg ++ st.log ∧
+      enters seg = ((st.list.reverse.filter asked).map fun b => (b.key, EV_UNBIND + EV_DESTROY))
+
+theorem destroy_notifies : DestroyNotifiesStmt Cfg.repaired := by
+  intro own beh hb fuel ops st st' hops hnd hr hd
+  have := execOps_good own beh hb fuel ops St.init hops Top.init
+  rw [hr] at this
+  have htop := this.2 hnd
+  have hfn : ∀ b ∈ st.list.reverse, b.fn ≠ none := fun b hb' =>
+    htop.1.liveFn b (List.mem_reverse.1 hb') (htop.no_tombstones b (List.mem_reverse.1 hb'))
+  simp only [execOp] at hd
+  cases hc : exec Cfg.repaired own beh fuel (.destroyLoop st.list.reverse) st with
+  | outOfFuel => rw [hc] at hd; simp [Res.dropRet] at hd
+  | ub w => rw [hc] at hd; simp [Res.dropRet] at hd
+  | ok p =>
+    obtain ⟨st'', r⟩ := p
+    rw [hc] at hd
+    simp only [Res.dropRet] at hd
+    injection hd with hd
+    subst hd
+    obtain ⟨hl, seg, hseg, hent, _⟩ := destroyLoop_spec own beh _ _ _ _ _ hfn hc
+    exact ⟨htop.no_tombstones, hl, seg, hseg, hent⟩
+
+/-- Between operations the list holds no tombstone and the sweep flag is clear: the suspected defect
+    "destroy with a tombstone pending" needs the owner to be destroyed from inside a handler. -/
+theorem no_tombstone_between_operations (own : Owner) (beh : Behaviour) (hb : NoDestroy beh) (fuel : Nat) (ops : List Op) (st : St)
+    (hops : ValidOps ops) (hnd : Op.destroy ∉ ops) (hr : Runs Cfg.repaired own beh fuel ops st) :
+    st.isIter = false ∧ ∀ b ∈ st.list, b.id ≠ TOMBSTONE := by
+  have := execOps_good own beh hb fuel ops St.init hops Top.init
+  rw [hr] at this
+  exact ⟨(this.2 hnd).2, (this.2 hnd).no_tombstones⟩
 
 end Tickit.Props.C16
